@@ -49,6 +49,7 @@ type sideExpr struct {
 	path string // Go-ish path below the element, e.g. "Info.PrintableName()"
 	abs  bool
 	via  string // name of the local it was read through ("" if written in place)
+	key  bool   // the expression is the precomputed key STRUCT of that element (not yet a field of it)
 }
 
 type cmpCtx struct {
@@ -60,6 +61,11 @@ type cmpCtx struct {
 	funcs  map[string]*ast.FuncDecl // package-level functions by name (for inlining)
 	projOf func(path string) (string, error)
 	depth  int
+	// precomputed-key style: keyRef recognises `recv.keys[i]`; keyDefs maps a field of the key struct
+	// to the expression of the element it was computed from at the construction site
+	keyRef  func(ast.Expr) (side int, ok bool)
+	keyDefs map[string]*sideExpr
+	keyType string
 }
 
 func (c *cmpCtx) errf(n ast.Node, format string, a ...any) error {
@@ -68,9 +74,35 @@ func (c *cmpCtx) errf(n ast.Node, format string, a ...any) error {
 
 // side normalises an expression that must depend on exactly one of the two elements.
 func (c *cmpCtx) sideOf(e ast.Expr) (*sideExpr, error) {
+	if c.keyRef != nil {
+		if side, ok := c.keyRef(e); ok {
+			return &sideExpr{side: side, key: true}, nil
+		}
+	}
 	switch x := e.(type) {
 	case *ast.ParenExpr:
 		return c.sideOf(x.X)
+	case *ast.UnaryExpr:
+		// &recv.keys[i]
+		if x.Op == token.AND {
+			in, err := c.sideOf(x.X)
+			if err != nil {
+				return nil, err
+			}
+			if in.key {
+				return in, nil
+			}
+		}
+		return nil, c.errf(e, "unsupported expression %s", src(c.fset, e))
+	case *ast.StarExpr:
+		in, err := c.sideOf(x.X)
+		if err != nil {
+			return nil, err
+		}
+		if in.key {
+			return in, nil
+		}
+		return nil, c.errf(e, "unsupported expression %s", src(c.fset, e))
 	case *ast.Ident:
 		if c.isA(x) {
 			return &sideExpr{side: 0}, nil
@@ -108,6 +140,14 @@ func (c *cmpCtx) sideOf(e ast.Expr) (*sideExpr, error) {
 		if err != nil {
 			return nil, err
 		}
+		if in.key {
+			// a field of the precomputed key: replace it by the expression it was computed from
+			def, ok := c.keyDefs[x.Sel.Name]
+			if !ok {
+				return nil, c.errf(e, "field %s of the precomputed key %s cannot be traced to a defining expression at the construction site", x.Sel.Name, c.keyType)
+			}
+			return &sideExpr{side: in.side, path: def.path, abs: def.abs, via: "key." + x.Sel.Name}, nil
+		}
 		if in.abs {
 			return nil, c.errf(e, "selector applied to abs64 result")
 		}
@@ -118,6 +158,9 @@ func (c *cmpCtx) sideOf(e ast.Expr) (*sideExpr, error) {
 			in, err := c.sideOf(x.Args[0])
 			if err != nil {
 				return nil, err
+			}
+			if in.key {
+				return nil, c.errf(e, "abs64 applied to a key struct")
 			}
 			if in.abs {
 				return in, nil // abs64(abs64(x)) = abs64(x) except at MinInt64 where both are MinInt64
@@ -162,6 +205,11 @@ func (c *cmpCtx) mentionsElem(e ast.Expr) bool {
 			if c.isA(ex) || c.isB(ex) {
 				found = true
 			}
+			if c.keyRef != nil {
+				if _, ok := c.keyRef(ex); ok {
+					found = true
+				}
+			}
 			if id, ok := ex.(*ast.Ident); ok {
 				if _, ok := c.locals[id.Name]; ok {
 					found = true
@@ -195,6 +243,9 @@ func (c *cmpCtx) pair(e ast.Expr) (a, b *sideExpr, op token.Token, err error) {
 		return nil, nil, 0, err
 	}
 	op = be.Op
+	if x.key || y.key {
+		return nil, nil, 0, c.errf(e, "comparison of whole key structs is not a recognised shape")
+	}
 	if x.side == y.side {
 		return nil, nil, 0, c.errf(e, "both operands of %s refer to the same element", src(c.fset, e))
 	}
